@@ -15,9 +15,11 @@ using namespace bspline::operators;
 #endif
 
 template <size_t d, size_t o>
-void prim_case(size_t n) {
+void prim_case(size_t n, bool fixed_grid = false) {
   auto &E = Engine::get();
-  auto g = gridvars(n);
+  // fixed_grid: rational grid points (the high-order cases, where a symbolic midpoint raised to the 40th power is out of reach)
+  std::vector<Real> g = fixed_grid ? std::vector<Real>{Real::frac(-3, 2), Real::frac(5, 7), Real(3)} : gridvars(n);
+  if (fixed_grid) g.resize(n);
   Grid<Real> grid(g);
   Real x = Real::var("x");
   bool ctl = false;
@@ -59,4 +61,19 @@ void add(std::vector<Case> &cases) {
   else if constexpr (d > 0)
     add<d - 1, MAXO>(cases);
 }
-void hx_cases(std::vector<Case> &cases) { add<MAXD, MAXO>(cases); }
+// sparse high (n, order) pairs on a fixed rational 2-point grid [-3/2, 5/7] (coefficients and x symbolic): where factorials and binomials leave the range of 64-bit integers
+template <size_t d, size_t o>
+void add_high(std::vector<Case> &cases) {
+  cases.push_back({"prim-high/d" + std::to_string(d) + "/o" + std::to_string(o) + "/n2", [=] { prim_case<d, o>(2, true); }});
+}
+static constexpr std::array<size_t, 10> HV{0, 1, 3, 5, 8, 13, 20, 21, 22, 25};
+template <size_t... I>
+void add_high_all(std::vector<Case> &cases, std::index_sequence<I...>) {
+  (add_high<HV[I / HV.size()], HV[I % HV.size()]>(cases), ...);
+}
+void hx_cases(std::vector<Case> &cases) {
+  add<MAXD, MAXO>(cases);
+#ifdef HIGH_ORDERS
+  add_high_all(cases, std::make_index_sequence<HV.size() * HV.size()>{});
+#endif
+}
